@@ -994,6 +994,17 @@ def corner_histories():
                       'apply': lambda p, src: (drop_finds(p, src), add_submodule(p, src))},
                      {'kind': 'script-sub-edit', 'script': 'lib/build.bfg', 'apply': sub_edit}, 'noop',
                      {'kind': 'script-sub-edit', 'script': 'lib/build.bfg', 'apply': sub_edit}]))
+    # the project KEEPS searching (the cache stays in use) and gains an options.bfg and a submodule; then only one of those
+    # secondary scripts is edited: every regeneration input counts for the skip decision, not only the main script
+    for pkg in (False, True):
+        pj = proj(two(), pkg)
+        pj.files.update(lib_files)
+        out.append(('searching-project-secondary-script-edited' + ('-stamp' if pkg else ''), pj,
+                    [{'kind': 'script-add-options', 'script': 'build.bfg', 'apply': add_options},
+                     {'kind': 'script-options', 'script': 'options.bfg', 'apply': options_edit}, 'noop',
+                     {'kind': 'script-add-submodule', 'script': 'build.bfg', 'apply': lambda p, src: add_submodule(p, src)},
+                     {'kind': 'script-sub-edit', 'script': 'lib/build.bfg', 'apply': sub_edit}, 'noop',
+                     {'kind': 'script-options', 'script': 'options.bfg', 'apply': options_edit}]))
     pj = proj(two())
     pj.files.update(lib_files)
     out.append(('finds-dropped-options-added-then-edited', pj,
